@@ -277,9 +277,8 @@ class H6(Case):
     transforms only: for rank-3 tensors WITH non-unitary transforms SimpleProcessTensor.compute_caps
     (trace_square, transforms ignored) and FileProcessTensor.compute_caps differ and the property does
     not say which is meant -- not demanded HERE (with the unitary transforms PT-TEMPO produces they agree;
-    that case is covered by C05/H1 and C16/H2).  Re-adjudicated later: the cap is fixed by the property
-    (compute_dynamics contracts the transformed tensors); both classes were repaired in /repo 2afc41d and
-    the rank-3-with-transforms sub-case is demanded by C16/H5 for both classes."""
+    that case is covered by C05/H1 and C16/H2).  Later (/repo 2afc41d, 8309bd6): the file-backed class was repaired for rank-4 tensors and made to use
+    the same rank-3 weights as the in-memory class; rank-3 with transforms stays not demanded."""
     functions = ("SimpleProcessTensor.compute_caps", "SimpleProcessTensor.get_mpo_tensor", "BaseProcessTensor.__init__")
     env = {}
 
